@@ -41,8 +41,8 @@ def run(rep, tier, seed):
             chk.generate('gen2', gen_consts(2), cassettes=('memory', 'file'), n_conc=2, sample=2500, cap=4000)
             chk.generate('gen3', gen_consts(3, InCalls=[], OutAliases=['oa1'], OutResults=[('val', 'v1')], Ends=['ret']),
                          cassettes=('memory',), n_conc=1, sample=3000, cap=5000)
-            chk.generate('afterfail', gen_consts(1, MaxPSteps=2, MaxRuns=3, Modes=['free', 'same'], InOpts=[opts()],
-                                                 OutOpts=[opts()], InCalls=[('ia1', 1), ('ia1', 2)], OutAliases=['oa1'],
+            chk.generate('afterfail', gen_consts(1, MaxPSteps=2, MaxRuns=3, Modes=['free'], InOpts=[opts()],
+                                                 OutOpts=[opts(failMissing=False)], InCalls=[('ia1', 1), ('ia1', 2)], OutAliases=['oa1'],
                                                  Vals=['v1'], OutResults=[('val', 'v1')], Ends=['ret']),
                          cassettes=('memory',), n_conc=1, sample=2500, cap=4000)
             chk.generate('deep11', deep_consts(11), cassettes=('memory', 's3'), n_conc=1, sample=300, cap=500,
